@@ -13,17 +13,17 @@ func init() {
 		ruleTablesGNMI(c, r)
 		ruleTablesKeys(c, r)
 		ruleTablesLeafList(c, r)
-		ruleSignConv(c, r, anchorScope("C02"), 1)
+		ruleSignConv(c, r, c.anchored("C02"), 1)
 		ruleWildcardOpt(c, r)
-		ruleReflectString(c, r, anchorScope("C02"))
+		ruleReflectString(c, r, c.anchored("C02"))
 	})
 	register("C16", func(c *Ctx, r *Report) {
 		r.Decides("every supported key kind has a string form in KeyValueAsString and a parser in stringToKeyType and StringToType; binary keys are rejected by the generator.",
 			"value-level round-trip of each key string (formatting precision, escaping is C08).")
 		ruleTablesKeys(c, r)
-		ruleSignConv(c, r, anchorScope("C16"), 0)
+		ruleSignConv(c, r, c.anchored("C16"), 0)
 		ruleWildcardOpt(c, r)
-		ruleReflectString(c, r, anchorScope("C16"))
+		ruleReflectString(c, r, c.anchored("C16"))
 	})
 }
 
@@ -52,13 +52,13 @@ func init() {
 		r.Decides("every value written into the destination by the copy family is fresh, the destination's own, or a source value proved non-reference by a dominating guard; deepCopy copies into a fresh root; MergeStructs merges into the deep copy; no append onto a slice the function does not own.",
 			"equality of the copy with the original; sharing through leaf-list elements that are wrapper-union pointers (element kind is not decided statically).")
 		ruleCopyAlias(c, r)
-		ruleAppendAlias(c, r, anchorScope("C04"), 3)
+		ruleAppendAlias(c, r, c.anchored("C04"), 3)
 	})
 	register("C05", func(c *Ctx, r *Report) {
 		r.Decides("MergeStructs deep-copies a and merges b into the copy (inputs never destinations); merge options are forwarded to every recursive copy call; every sink in the copy family writes fresh or guarded values.",
 			"the exact success boundary (which pairs conflict), union-of-leaves and commutativity at value level.")
 		ruleCopyAlias(c, r)
-		ruleOptsForward(c, r, anchorScope("C05"), 10)
+		ruleOptsForward(c, r, c.anchored("C05"), 10)
 	})
 }
 
@@ -67,7 +67,7 @@ func init() {
 		r.Decides("the guards of ygot.diff (delete ⇔ absent from modified; update of a common path ⇔ !reflect.DeepEqual; additions ⇔ absent from original ∧ no IgnoreAdditions), PathToString-keyed leaf maps, cloned parent paths, and no append onto slices the diff code does not own (paths of one leaf never share a backing array with another).",
 			"apply-back equality Diff(a,b) applied to a gives b; atomic ordering; C08's injectivity of PathToString is imported, not re-decided here.")
 		ruleDiffGuards(c, r)
-		ruleAppendAlias(c, r, anchorScope("C03"), 40)
+		ruleAppendAlias(c, r, c.anchored("C03"), 40)
 	})
 }
 
@@ -78,7 +78,7 @@ func init() {
 		ruleDeletePrune(c, r)
 		ruleWriteGated(c, r)
 		ruleWildcardOpt(c, r)
-		ruleReflectString(c, r, anchorScope("C12"))
+		ruleReflectString(c, r, c.anchored("C12"))
 	})
 }
 
@@ -89,8 +89,8 @@ func init() {
 		ruleOrderEnum(c, r)
 		ruleLengthUnits(c, r)
 		rulePatternForall(c, r)
-		ruleSignConv(c, r, anchorScope("C06"), 2)
-		ruleByteRune(c, r, anchorScope("C06"))
+		ruleSignConv(c, r, c.anchored("C06"), 2)
+		ruleByteRune(c, r, c.anchored("C06"))
 	})
 	register("C07", func(c *Ctx, r *Report) {
 		r.Decides("every checker the property names is reachable from Validate through static calls; no validator loop silently skips an iteration; string lengths in characters; no sign-changing conversions in the validators.",
@@ -98,6 +98,32 @@ func init() {
 		ruleValidateReach(c, r)
 		ruleValidatorSkip(c, r)
 		ruleLengthUnits(c, r)
-		ruleSignConv(c, r, anchorScope("C07", "ytypes/int_type.go", "ytypes/string_type.go", "ytypes/decimal_type.go", "ytypes/binary_type.go"), 2)
+		ruleSignConv(c, r, c.anchored("C07", "ytypes/int_type.go", "ytypes/string_type.go", "ytypes/decimal_type.go", "ytypes/binary_type.go"), 2)
+	})
+}
+
+func init() {
+	register("C11", func(c *Ctx, r *Report) {
+		r.Decides("absence of writes to inputs in the library's own code: retrieveNode's writes are gated by write flags GetNode never sets; read-only APIs reach only reflect mutators on fresh values and read-only reflective calls; no function reachable from any listed API stores through a parameter of shared-input type (protobuf messages, schema nodes, option/config structs) or appends onto a slice it does not own; gnmidiff mutates only fresh roots.",
+			"writes performed inside dependencies (protobuf, goyang, encoding/json) and through user-supplied callbacks; aliasing through interface values the AST-level provenance cannot follow.")
+		ruleWriteGated(c, r)
+		ruleROReflect(c, r)
+		fs := c.entryReach(r, allInputEntries...)
+		ruleParamStore(c, r, fs, 150)
+		ruleAppendAlias(c, r, fs, 100)
+		ruleGnmidiffRoot(c, r)
+	})
+}
+
+func init() {
+	register("C21", func(c *Ctx, r *Report) {
+		r.Decides("absence of unsynchronised shared writes in the library's own code: package-level variables are written only under the debug flags or a held mutex; the regexp cache maps are accessed under their paired mutex; shared inputs (schema nodes, messages, configs) are never stored through and slices the library does not own are never appended to, in any function reachable from the listed APIs; retrieveNode writes are gated.",
+			"schedule independence of results beyond absence of shared writes; synchronisation inside glog, protobuf, regexp (assumed).")
+		ruleGlobals(c, r)
+		ruleLockset(c, r)
+		fs := c.entryReach(r, allInputEntries...)
+		ruleParamStore(c, r, fs, 150)
+		ruleAppendAlias(c, r, fs, 100)
+		ruleWriteGated(c, r)
 	})
 }
